@@ -39,6 +39,20 @@ type harness struct {
 	rep   *vh.Report
 	known map[string]vh.Finding
 	items []item
+	hash  uint64 // FNV-1a over the generated cases: equal for equal VERIF_SEED (reported as case-stream-hash)
+}
+
+// stable feeds the part of a case that must be a function of the seed alone into the case-stream hash.
+func (h *harness) stable(s string) {
+	if h.hash == 0 {
+		h.hash = 14695981039346656037
+	}
+	for i := 0; i < len(s); i++ {
+		h.hash ^= uint64(s[i])
+		h.hash *= 1099511628211
+	}
+	h.hash ^= 0xff
+	h.hash *= 1099511628211
 }
 
 func (h *harness) add(line string, check func(model string)) {
@@ -131,6 +145,7 @@ func main() {
 			}
 		}
 	}
+	rep.Hist["case-stream-hash"] = int(h.hash % 1000000007)
 	if c := loaderCalls.Load(); c > 0 {
 		rep.Hist["document-loader-calls"] = int(c)
 	}
